@@ -19,10 +19,10 @@ import mosaik_api_v3
 CTX = None  # the current harness.Run (set by Run.execute)
 
 T_ATTRS = {"attrs": ["mi", "po"]}
-E_ATTRS = {"attrs": ["ti", "eo"]}
+E_ATTRS = {"attrs": ["ti", "ti2", "eo"]}
 H_ATTRS = {
-    "attrs": ["mi", "ti", "po", "eo"],
-    "trigger": ["ti"],
+    "attrs": ["mi", "ti", "ti2", "po", "eo"],
+    "trigger": ["ti", "ti2"],
     "non-persistent": ["eo"],
 }
 
